@@ -401,6 +401,107 @@ pub fn gen_stream(src: &mut Src, _i: usize) -> Case {
     Case::new(1, 1, None).feed(s)
 }
 
+
+/// longest prefix of `seq` (in characters), starting in ground, during which the reference
+/// parser neither prints, executes nor dispatches: those characters only change parser state
+fn silent_prefix_len(seq: &str) -> usize {
+    let mut r = RefParser::new();
+    let mut n = 0;
+    for c in seq.chars() {
+        let o = r.feed(c);
+        if matches!(o.act, Act::Print | Act::Execute | Act::EscDispatch | Act::CsiDispatch) || r.state == St::Ground {
+            break;
+        }
+        n += 1;
+    }
+    n
+}
+
+fn ends_in_ground(s: &str) -> bool {
+    let mut r = RefParser::new();
+    for c in s.chars() {
+        r.feed(c);
+    }
+    r.state == St::Ground
+}
+
+/// A public call that is not input (resize to another or the same size, dump(), text(),
+/// the read accessors) between two pieces of one sequence: the parser state is a function
+/// of the characters alone, so moving the already-fed part of the unfinished sequence
+/// behind that call must not change anything.
+/// case: calls = [FeedStr(pre + seq[..j]), X, FeedStr(seq[j..] + post)], tail = [pre, seq, post], nums = [j]
+pub fn gen_calls_mid_sequence(src: &mut Src, _i: usize) -> Case {
+    let (cols, rows) = gen::small_size(src);
+    let mut g = G::new(cols, rows);
+    g.w[gen::CAT_INERT] = 3;
+    g.w[gen::CAT_SGR] = 4;
+    g.w[gen::CAT_DECMODE] = 4;
+    let mut pre = if src.chance(2, 3) { gen::input(src, &g, 3) } else { String::new() };
+    if !ends_in_ground(&pre) {
+        pre.clear();
+    }
+    // construction, not rejection: up to 4 draws, the last one is a fixed CSI sequence
+    let mut seq = String::new();
+    for k in 0..4 {
+        seq = if k == 3 { format!("\x1b[{};{}H", src.range(1, rows + 1), src.range(1, cols + 1)) } else { gen::frag_structured(src, &g) };
+        if silent_prefix_len(&seq) >= 2 {
+            break;
+        }
+    }
+    let sp = silent_prefix_len(&seq).max(1);
+    let j = src.range(1, sp);
+    let post = gen::input(src, &g, 2);
+    let x = match src.below(8) {
+        0 => Call::Resize(cols, rows),
+        1 => Call::Dump,
+        2 => Call::Text,
+        3 => Call::Query,
+        _ => {
+            let (c, r) = gen::resize_target(src, &g);
+            Call::Resize(c, r)
+        }
+    };
+    let chars: Vec<char> = seq.chars().collect();
+    let j = j.min(chars.len());
+    let head: String = chars[..j].iter().collect();
+    let rest: String = chars[j..].iter().collect();
+    let mut c = Case::new(cols, rows, None).feed(format!("{}{}", pre, head));
+    c.calls.push(x);
+    c.calls.push(Call::FeedStr(format!("{}{}", rest, post)));
+    c.tail = vec![pre, seq, post];
+    c.nums = vec![j];
+    c
+}
+
+pub fn judge_calls_mid_sequence(case: &Case, t: &mut Tally) -> Verdict {
+    // shrink-safe: the shape is re-derived from tail/nums and the middle call only
+    if case.tail.len() != 3 || case.nums.len() != 1 || case.calls.len() != 3 {
+        return Verdict::Pass;
+    }
+    let (pre, seq, post) = (&case.tail[0], &case.tail[1], &case.tail[2]);
+    let j = case.nums[0];
+    let x = case.calls[1].clone();
+    if matches!(x, Call::FeedStr(_) | Call::Feed(_)) || !ends_in_ground(pre) || j == 0 || j > silent_prefix_len(seq) {
+        return Verdict::Pass;
+    }
+    let chars: Vec<char> = seq.chars().collect();
+    let head: String = chars[..j].iter().collect();
+    let rest: String = chars[j..].iter().collect();
+    t.steps += 1;
+    t.nontrivial = true;
+    match &x {
+        Call::Resize(c, r) if (*c, *r) != (case.cols, case.rows) => t.class("resize_mid_sequence"),
+        Call::Resize(..) => t.class("same_size_resize_mid_sequence"),
+        _ => t.class("read_only_call_mid_sequence"),
+    }
+    let a = crate::observe::Recipe { cols: case.cols, rows: case.rows, limit: case.limit, calls: vec![Call::FeedStr(format!("{}{}", pre, head)), x.clone(), Call::FeedStr(format!("{}{}", rest, post))] };
+    let b = crate::observe::Recipe { cols: case.cols, rows: case.rows, limit: case.limit, calls: vec![Call::FeedStr(pre.clone()), x.clone(), Call::FeedStr(format!("{}{}", seq, post))] };
+    if let Err(d) = crate::observe::equivalent(&a, &b, true) {
+        return Verdict::fail("call-mid-sequence", format!("feed_str({:?}); {:?}; feed_str({:?}) differs from feed_str({:?}); {:?}; feed_str({:?}) - a call that is not input changed how the unfinished sequence {:?} is parsed: {} after probes {:?}", format!("{}{}", pre, head), x, format!("{}{}", rest, post), pre, x, format!("{}{}", seq, post), head, d.what, d.after));
+    }
+    Verdict::Pass
+}
+
 /// character-class soup: random walks over the table's character classes
 pub fn gen_soup(src: &mut Src, _i: usize) -> Case {
     let n = src.range(1, 60);
@@ -514,6 +615,8 @@ pub fn run(env: &Env) -> PropRun {
     parts.push(random_part(env, "memoryless-triples", ntr, &move |src: &mut Src, _| Case::new(1, 1, None).feed(src.pick(&bb).clone()).feed(src.pick(&bb).clone()).feed(src.pick(&bb).clone()), &jm));
     parts.push(random_part(env, "random-streams", env.tier.scale(150_000, 30), &gen_stream, &js));
     parts.push(random_part(env, "class-soup", env.tier.scale(300_000, 30), &gen_soup, &js));
+    let jc = |c: &Case, t: &mut Tally| judge_calls_mid_sequence(c, t);
+    parts.push(random_part(env, "calls-mid-sequence", env.tier.scale(20_000, 20), &gen_calls_mid_sequence, &jc));
     PropRun {
         parts,
         meta: EvidenceMeta {
